@@ -112,7 +112,7 @@ def run():
         binp = os.path.join(sd, "c21.test")
         W = 6 if thorough else 4
         with ThreadPoolExecutor(max_workers=12) as ex:
-            f_bin = ex.submit(vf.go_test_compile, ov, "./" + PKG + "/", binp)
+            f_bin = ex.submit(vf.go_test_compile, ov, "./" + PKG + "/", binp, "verif", False, 3000)
             f_mc = ex.submit(vf.tlc, "TokenAuth", "TokenAuth", "TokenAuth_MC.cfg" if thorough else "TokenAuth_MCq.cfg", sd,
                              workers=W, timeout=4000)
             f_neg = ex.submit(vf.tlc, "TokenAuth", "TokenAuth", "TokenAuth_MC_asis.cfg", sd, workers=2, timeout=2000)
